@@ -32,7 +32,7 @@ ASSUMPTIONS = [
     "T is exercised for ndim <= 2 only (documented: transpose() without arguments needs explicit dims for ndim > 2)",
     "broadcast targets contain all of the array's non-singleton dimensions with the same labels (documented usage)",
 ]
-MANDATORY = ["swapaxes:negative-positions", "broadcast:empty-target-axis", "broadcast:omits-singleton", "transpose", "swapaxes", "rollaxis", "newaxis", "newaxis:values", "squeeze", "repeat", "broadcast", "broadcast_arrays",
+MANDATORY = ["swapaxes:negative-positions", "rollaxis:negative-positions", "broadcast:empty-target-axis", "broadcast:omits-singleton", "transpose", "swapaxes", "rollaxis", "newaxis", "newaxis:values", "squeeze", "repeat", "broadcast", "broadcast_arrays",
              "square-equal-labels", "composition", "ndim:4", "ndim:0"]
 
 ATTRS = {"units": "m", "hist": [1, {"k": 2}], "_FillValue": -999, "max": 3}        # (any key may be metadata: underscore names, names of methods)
@@ -89,6 +89,10 @@ def expect(res, src, exp_dims, exp_labels, new_dims, what, sig, attrs=True, plac
         check(res.values.dtype == src_dtype, "dtype", {"what": what, "got": str(res.values.dtype), "expected": str(src_dtype)}, sig)
     if attrs:
         check(core.attrs_equal(res.attrs, ATTRS), "attrs-not-kept", {"what": what, "got": core.jsonable(res.attrs)}, sig)
+    # every axis travels with its data - whole, i.e. with the metadata it carries
+    for d in res.dims:
+        if d in src.dims and d not in new_dims:
+            check(core.attrs_equal(res.axes[d].attrs, {"tag": "of-" + d}), "axis-metadata-not-kept", {"what": what, "dim": d, "got": core.jsonable(res.axes[d].attrs)}, sig)
 
 
 _SRC_DTYPE = {}
@@ -100,6 +104,8 @@ def run_case(case):
     dims, labels = list(spec["dims"]), [list(l) for l in spec["labels"]]
     nd = len(dims)
     a = core.build(spec, attrs=ATTRS)
+    for ax_ in a.axes:
+        ax_.attrs["tag"] = "of-" + ax_.name
     snap = core.snapshot(a)
     _SRC_DTYPE["dtype"] = a.values.dtype
     src = core.model_of_spec(spec)
@@ -194,6 +200,13 @@ def run_case(case):
                     what = "rollaxis[%s](%s, start=%d) dims=%s labels=%s" % (fname, dims[i], start, dims, labels)
                     res = lib(f, what=what, sig={"op": "rollaxis"})
                     expect(res, src, pd, [lab_of[d] for d in pd], [], what, {"op": "rollaxis"})
+                # positions counted from the end (NumPy's convention): the same permutation
+                for fname, f in (("negative axis", lambda: a.rollaxis(i - nd, start)),) + ((("negative start", lambda: a.rollaxis(i, start - nd)), ("both negative", lambda: a.rollaxis(i - nd, start - nd)),
+                                                                                            ("name, negative start", lambda: a.rollaxis(dims[i], start - nd))) if start < nd else ()):
+                    what = "rollaxis[%s](%s, start=%d) dims=%s labels=%s" % (fname, dims[i], start, dims, labels)
+                    res = lib(f, what=what, sig={"op": "rollaxis"})
+                    expect(res, src, pd, [lab_of[d] for d in pd], [], what, {"op": "rollaxis"})
+                    cl.add("rollaxis:negative-positions")
                 done("rollaxis", [i, start], perm != list(range(nd)))
             if nd:
                 what = "rollaxis(%s) default start dims=%s" % (dims[i], dims)
@@ -340,6 +353,8 @@ def run_case(case):
         bl = [lab_of[d] if d in dims else case["extra_labels"][case["extra"].index(d)] for d in bd]
         bspec = {"dims": bd, "labels": bl, "vk": "f", "base": 100}
         b = core.build(bspec)
+        for ax_ in b.axes:
+            ax_.attrs["tag"] = "of-" + ax_.name
         msrc_b = core.model_of_spec(bspec)
         arrays = [a, b] + ([da.DimArray(np.array(7.5))] if case["border"] % 3 == 0 else [])
         what = "broadcast_arrays(a dims=%s, b dims=%s%s) labels a=%s b=%s" % (dims, bd, ", 0-d" if len(arrays) == 3 else "", labels, bl)
